@@ -22,15 +22,27 @@ CHECKS = {
  "C06": ("exploration", "stateful PBT on the same worlds with un-notified edits and noise; invariants over the observed loader/source log vs the shadow dependency graph; reload-id / watcher accounting after every pass",
          "For every step: the reloader re-loads only assets connected (per the observed dependency graph, including failed attempts) to a notified entry, at most once per pass, never reads the source otherwise; reload ids change exactly once per successful rewrite; watchers and reloaded_global answer true exactly once per batch of rewrites; unaffected values are bit-identical.",
          "the shadow graph is derived from observed reads and look-ups with the attribution rules of C14; passes are delimited by hot_reload calls (exact counts only in that mode)", "4/C06"),
+ "C07": ("exploration", "concurrent PBT with self-checking multi-word values: generated reader styles x reload streams; invariants checked inside the racing threads (torn reads, guard pinning, id pinning, in-flight bracket, watcher freshness)",
+         "1..7 reader threads (short, long-held, mapped, try_map, copied, polling watcher, bracket sampler) race a writer that streams 30..2000 reloads of 64 B .. 64 KiB self-checking values; thorough repeats under parking_lot.",
+         "schedules are sampled by the OS scheduler; readers respect the documented preconditions", "4/C07"),
+ "C08": ("exploration", "concurrent PBT in supervised worker processes: generated callers x loaders x event bursts x cyclic look-up graphs; oracle = completion under a /proc blocked-state detector (all threads asleep + zero CPU = deadlock), worker exit status, and an in-flight bracket on reloader activity",
+         "Bounded-safety reading of liveness: in every explored execution no all-blocked state is reachable, the process does not abort, and the reloader never works while no hot_reload call is in flight.",
+         "deadlock is decided from /proc thread states and CPU ticks, never from elapsed time; slow cases are inconclusive (exit 2)", "4/C08"),
  "C09": ("fault_enumeration", "exhaustive single-fault injection inside generated scenarios (every read index x io kind, every loader invocation x {Err, panic}, initial-load and reload phases) with containment invariants against a model interpreter; blocked-state detector for liveness",
          "For each generated scenario a dry run counts reads and loader invocations per phase; then every single fault is executed on a fresh copy, followed by removal of the fault, retry, and a repairing edit. Cached values must be untouched or fully explained (fresh model value, possibly with the faulted file unusable, or a swallowed failure), ids move only with values, the recording token is restored, retries and later hot_reload calls succeed.",
          "single faults; the sentinel asset of the barrier is exempt from injection; explanations of swallowed faults use the model interpreter", "4/C09"),
  "C10": ("exploration", "stateful PBT: histories on the same keys over four cache constructors with a frozen-entry model",
          "Random histories of load / load_owned / get_or_insert / remove / take / clear with notified edits, a load racing an insertion and barriers; every entry the statement declares non-reloadable must keep its creation value, ReloadId::NEVER, silent watchers and the same Handle::get() address and content.",
          "reloadable entries are observed to reload in the same histories, so the reloader is live when frozen entries are checked", "4/C10"),
+ "C13": ("exploration", "stateful PBT with a drop ledger and a checking global allocator over four value layouts; shaped races (insertion rendezvous, guard across reload); exhaustive wrong-type views per cached handle",
+         "Histories of load / load_owned / get_or_insert / remove / take / clear / reload / failing reload / guarded reload / racing loads; after every step the live tracked values must be exactly those reachable through the cache or owned by the caller.",
+         "ledger and allocator wrapper are harness code; races are shaped and sampled", "4/C13"),
  "C14": ("exploration", "PBT over nested recipes with per-entry enumeration inside each case: exact set equality between handles whose reload id grew and the shadow-graph closure; recording-token hook",
          "Generated recipes nest loads, owned loads, look-ups, directory loads and raw reads inside no_record (entered through this or another cache), helper threads, a second cache and caught panics; then every touched entry is edited and notified alone and the set of reloaded handles must equal exactly the assets whose own load touched it (plus dependents). The recording token is sampled around every nested operation.",
          "uses the hook recording_token (read-only); attribution rules are those of the statement, implemented in the harness recorder", "4/C14"),
+ "C15": ("exploration", "PBT over create/use/drop sequences with a /proc/self/task oracle (per-thread CPU ticks, thread names and counts)",
+         "Generated sequences over 1..3 caches on in-memory and real filesystem sources with four drop timings, sources dropping their EventSender, and post-drop filesystem activity; idle reloaders must accrue <= 2 ticks in 400 ms, reloaders of dropped caches must be gone or not running, filesystem watcher threads must return to the baseline.",
+         "CPU-tick thresholds with wide margins (idle 0-1 vs spinning ~40 per 400 ms); inotify availability is probed", "4/C15"),
  "C16": ("exploration", "model-based stateful PBT (Vec<u8>/String reference model) + checking global allocator; fuzz target c16",
          "Random op sequences over a pool of SharedBytes/SharedString handles are compared step by step with a Vec<u8>/String model, while a checking allocator verifies every free (layout, double free, poison, live blocks). Racing final drops behind a spin rendezvous sample the refcount race. Exploration, not proof: byte inputs and schedules are sampled.",
          "trusts the harness model and allocator wrapper; thread interleavings are OS-scheduled (sampled)", "4/C16"),
